@@ -1,4 +1,5 @@
 """C14 — run-length encoding is lossless and canonical."""
+import warnings
 import numpy as np
 import engine, gens, rlgen
 from engine import canon, guarded, refuse
@@ -238,6 +239,35 @@ def run_impl(p):
                 again = r.to_array()
                 if not np.array_equal(again.view(np.uint8), ref.view(np.uint8)) or len(r) != len(arr) or int(r.ends[-1]) != len(arr):
                     return False
+            # a conversion to ANOTHER element type first, then the plain conversion: the array's own type and cells again
+            with np.errstate(all="ignore"), warnings.catch_warnings():
+                warnings.simplefilter("ignore")
+                for odt in (np.float32 if ref.dtype != np.float32 else np.float64, bool, np.int8):
+                    r2 = RunLengthArray.from_array(arr.copy())          # (a fresh object: its FIRST conversion is the foreign one)
+                    try:
+                        np.asarray(r2, dtype=odt); np.array(r2, dtype=odt)
+                    except Exception:
+                        pass
+                    plain = np.asarray(r2)
+                    if plain.dtype != ref.dtype or not np.array_equal(plain.view(np.uint8), ref.view(np.uint8)):
+                        return False
+            # augmented assignment on a step-1 SLICE (b = r[1:]; b += 1 / b *= 2 / negative in place): the source keeps its cells
+            if len(arr) > 1 and ref.dtype.kind in "iuf":
+                with np.errstate(all="ignore"), warnings.catch_warnings():
+                    warnings.simplefilter("ignore")
+                    for op in ("iadd", "imul", "neg"):
+                        b = r[1:] if op != "imul" else r[:-1]
+                        try:
+                            if op == "iadd":
+                                b += 1
+                            elif op == "imul":
+                                b *= 2
+                            else:
+                                np.negative(b, out=b)
+                        except Exception:
+                            pass
+                        if not np.array_equal(r.to_array().view(np.uint8), ref.view(np.uint8)):
+                            return False
             return True
         o["decode_independent"] = guarded(lambda: canon(independent()))
         return o
